@@ -544,6 +544,69 @@ def rule_encoder(program, ctx, prop=P, rid="C04.encoder"):
                 ctx.bad(finding_at(prop, rid, k.value, f"the tags column is serialised by `{ast.unparse(k.value)[:60]}`, not by the audited encoder"))
 
 
+MUTATORS = {"append", "extend", "insert", "pop", "remove", "sort", "reverse", "clear", "update", "add", "discard", "setdefault", "__setitem__", "popitem"}
+
+
+def rule_immutable(program, ctx, prop=P, rid="C04.immutable"):
+    ctx.rule(
+        rid,
+        "the accepted Event object is never modified between verification and delivery: validators, add_event, pre_save/post_save/process_tags, the LMDB writer's "
+        "_post_save and BaseSubscription.notify contain no store to an attribute / item of the event, no in-place mutation of its tags (directly or through a "
+        "local alias such as `indexed = event.tags; indexed += …`): the live EVENT frame is built from this very object, so a mutation makes the served event differ "
+        "from the signed one (its id no longer matches)",
+        floor=8,
+    )
+    quals = [q for q in program.functions if q.startswith(("nostr_relay.validators:", "nostr_relay.dynamic_lists:is_", "nostr_relay.recipe.homeserver:is_"))]
+    quals += ["nostr_relay.storage.db:DBStorage.add_event", "nostr_relay.storage.db:DBStorage.pre_save", "nostr_relay.storage.db:DBStorage.post_save", "nostr_relay.storage.db:DBStorage.process_tags",
+              "nostr_relay.storage.kv:LMDBStorage.add_event", "nostr_relay.storage.kv:LMDBStorage.post_save", "nostr_relay.storage.kv:WriterThread._post_save",
+              "nostr_relay.storage.base:BaseSubscription.notify", "nostr_relay.storage.base:BaseStorage.notify_all_connected", "nostr_relay.storage.base:BaseSubscription.check_event",
+              "nostr_relay.recipe.homeserver:PostSaveForward.post_save"]
+    for q in quals:
+        fn = program.func_opt(q)
+        if fn is None or "." in q.split(":")[1] and q.split(":")[1].count(".") > 1:
+            continue
+        params = [a.arg for a in fn.args.args]
+        ev = "event" if "event" in params or any(isinstance(n, ast.Name) and n.id == "event" for n in ast.walk(fn)) else None
+        if ev is None:
+            continue
+        roots = {ev}
+        # aliases of the event or of one of its mutable fields
+        for st in walk_no_nested(fn):
+            if isinstance(st, ast.Assign) and len(st.targets) == 1 and isinstance(st.targets[0], ast.Name):
+                v = st.value
+                base = v
+                while isinstance(base, (ast.Attribute, ast.Subscript)):
+                    base = base.value
+                if isinstance(base, ast.Name) and base.id in roots and isinstance(v, (ast.Name, ast.Attribute, ast.Subscript)):
+                    roots.add(st.targets[0].id)
+        okf = True
+
+        def rooted(e):
+            while isinstance(e, (ast.Attribute, ast.Subscript)):
+                e = e.value
+            return isinstance(e, ast.Name) and e.id in roots
+
+        for n in walk_no_nested(fn):
+            bad = None
+            if isinstance(n, (ast.Assign, ast.AugAssign, ast.AnnAssign, ast.Delete)):
+                tgts = n.targets if isinstance(n, (ast.Assign, ast.Delete)) else [n.target]
+                for t in tgts:
+                    for x in ([t] if not isinstance(t, (ast.Tuple, ast.List)) else t.elts):
+                        if isinstance(x, (ast.Attribute, ast.Subscript)) and rooted(x):
+                            bad = f"`{norm(n, 60)}` stores into the accepted event"
+                        if isinstance(n, ast.AugAssign) and isinstance(x, ast.Name) and x.id in roots and x.id != ev:
+                            bad = f"`{norm(n, 60)}` extends a list of the accepted event in place (`{x.id}` is an alias of it)"
+            if isinstance(n, ast.Call) and isinstance(n.func, ast.Attribute) and n.func.attr in MUTATORS and rooted(n.func.value) and not (isinstance(n.func.value, ast.Name) and n.func.value.id == ev):
+                bad = f"`{norm(n, 60)}` mutates a field of the accepted event"
+            if isinstance(n, ast.Call) and call_name(n) == "setattr" and n.args and rooted(n.args[0]):
+                bad = f"`{norm(n, 60)}` stores into the accepted event"
+            if bad:
+                okf = False
+                ctx.bad(finding_at(prop, rid, n, f"{qual_of(fn)}: {bad}: the event that is stored and pushed to subscribers is no longer the one whose id and signature were verified"))
+        if okf:
+            ctx.ok(rid, fn, f"{qual_of(fn)} leaves the event untouched")
+
+
 def run(program, ctx):
     from ..lib import rule_awaited
 
@@ -556,6 +619,7 @@ def run(program, ctx):
     rule_kvcodec(program, ctx)
     rule_http(program, ctx)
     rule_encoder(program, ctx)
+    rule_immutable(program, ctx)
     ctx.not_decided += [
         "round-trip equality through SQLite/PostgreSQL JSON and TEXT columns and through msgpack for all Unicode/number values",
         "byte-level equality of the hand serializer's escaping with the client's original encoding (only JSON validity and value equality are targeted)",
